@@ -1,5 +1,6 @@
 (* Tag dispatch of BaseConstructor.construct_object (constructor.py:77-98), over the registry tables of Model/Registry.v.
-   The translator checks the source block against its frozen normal form (tools/translate/gen_calls.py). *)
+   The translator checks the source block against its frozen normal form (tools/translate/gen_calls.py), and the
+   dispatch correspondence (tools/layers/dispatchcorr.py) runs the real construct_object on synthetic tables against `dispatch`/`dispatch_suffix`. *)
 From Coq Require Import List String Bool.
 Import ListNotations.
 Require Import Registry.
@@ -23,6 +24,22 @@ Definition dispatch (ctors multi : table) (tag : string) (kind_default : string)
                 | Some m => m
                 | None => match lookup None ctors with Some m => m | None => kind_default end
                 end
+      end
+  end.
+(* the tag suffix construct_object passes to a multi-constructor (None = the handler is called with the node alone) *)
+Fixpoint multi_scan_prefix (tag : string) (tb : table) : option string :=
+  match tb with
+  | [] => None
+  | (Some p, _ :: _) :: r => if String.prefix p tag then Some p else multi_scan_prefix tag r
+  | _ :: r => multi_scan_prefix tag r
+  end.
+Definition dispatch_suffix (ctors multi : table) (tag : string) : option string :=
+  match lookup (Some tag) ctors with
+  | Some _ => None
+  | None =>
+      match multi_scan_prefix tag multi with
+      | Some p => Some (substring (String.length p) (String.length tag - String.length p) tag)
+      | None => match lookup None multi with Some _ => Some tag | None => None end
       end
   end.
 Definition dispatch_of (w : world) (c : cls) (tag kind_default : string) : string :=
